@@ -15,7 +15,7 @@ from rsocket.frame import (KeepAliveFrame,
                            RequestResponseFrame, RequestStreamFrame, Frame,
                            exception_to_error_frame,
                            LeaseFrame, ErrorFrame, RequestFrame,
-                           initiate_request_frame_types, InvalidFrame,
+                           initiate_request_frame_types, InvalidFrame, PayloadFrame,
                            FragmentableFrame, FrameFragmentMixin, MINIMUM_FRAGMENT_SIZE_BYTES)
 from rsocket.frame import (RequestChannelFrame, ResumeFrame,
                            is_fragmentable_frame, CONNECTION_STREAM_ID)
@@ -361,6 +361,11 @@ class RSocketBase(RSocket, RSocketInternal):
             return
 
         if is_fragmentable_frame(frame):
+            if self._is_payload_for_unknown_stream(frame):
+                # e.g. a fragment that crossed our CANCEL: keeping it would leave a partial frame behind for ever
+                logger().warning('%s: Dropping frame from unknown stream %d', self._log_identifier(), frame.stream_id)
+                return
+
             complete_frame = self._frame_fragment_cache.append(cast(FragmentableFrame, frame))
             if complete_frame is None:
                 return
@@ -375,6 +380,11 @@ class RSocketBase(RSocket, RSocketInternal):
         else:
             logger().warning('%s: Dropping frame from unknown stream %d', self._log_identifier(),
                              complete_frame.stream_id)
+
+    def _is_payload_for_unknown_stream(self, frame: Frame) -> bool:
+        return (isinstance(frame, PayloadFrame)
+                and not self._stream_control.has_stream(frame.stream_id)
+                and not self._frame_fragment_cache.has_partial_frame(frame.stream_id))
 
     async def _handle_frame_by_type(self, frame: Frame, async_frame_handler_by_type):
         frame_handler = async_frame_handler_by_type.get(type(frame), async_noop)
